@@ -32,6 +32,67 @@ def _write(p, s):
         fh.write(s)
 
 
+# private functions the ts-rs replay module calls directly, with the parameter types it assumes.  When a refactor changes one of
+# these signatures the wrapper is replaced by a panic (so the helper still builds and every other entry keeps working); harnesses
+# ask `entry_available` and fall back to the cells that reach the function through its callers.
+EXPECTED_SIGS = {
+    'merge': ('export.rs', ['String', 'String']),
+    'import_path': ('export.rs', ['&Path', '&Path']),
+    'export_and_merge': ('export.rs', ['PathBuf', 'String', 'String']),
+    'absolute': ('export/path.rs', None),
+    'diff_paths': ('export/path.rs', None),
+}
+
+
+def fn_params(src, name):
+    """parameter types of the first `fn name(` in the source text (None when absent)"""
+    m = re.search(r'\bfn\s+' + re.escape(name) + r'\b[^(;{]*\(', src)
+    if not m:
+        return None
+    i, depth, start = m.end(), 1, m.end()
+    while i < len(src) and depth:
+        depth += src[i] in '([{<' and not (src[i] == '<' and src[i - 1] == '-')
+        depth -= src[i] in ')]}' or (src[i] == '>' and src[i - 1] != '-')
+        i += 1
+    body = src[start:i - 1]
+    parts, cur, d = [], '', 0
+    for ch in body:
+        if ch in '([{<':
+            d += 1
+        elif ch in ')]}>':
+            d -= 1
+        if ch == ',' and d == 0:
+            parts.append(cur)
+            cur = ''
+        else:
+            cur += ch
+    if cur.strip():
+        parts.append(cur)
+    return [re.sub(r'\s+', '', q.split(':', 1)[1]) if ':' in q else q.strip() for q in parts]
+
+
+def entry_available(repo, name):
+    rel, want = EXPECTED_SIGS[name]
+    try:
+        got = fn_params(_read(os.path.join(repo, 'ts-rs', 'src', rel)), name)
+    except OSError:
+        return False
+    if got is None:
+        return False
+    return want is None or got == want
+
+
+def _adapt_replay(text, repo):
+    for name in EXPECTED_SIGS:
+        if entry_available(repo, name):
+            continue
+        # replace the body of `pub fn <name>(..) -> .. { .. }` inside the replay module by a panic
+        m = re.search(r'(    pub fn ' + name + r'\([^)]*\)[^{]*\{)(.*?)(\n    \})', text, re.S)
+        if m:
+            text = text[:m.start(2)] + f'\n        panic!("verif: entry `{name}` unavailable (signature changed)")' + text[m.end(2):]
+    return text
+
+
 def generate(kind, scratch, repo):
     base, feats = KINDS[kind]
     helper = os.path.join(scratch, 'helper')
@@ -74,7 +135,7 @@ tsm_lib = {{ path = "../tsm_lib", default-features = false, features = [{featlis
         cargo = re.sub(r'(?m)^readme\s*=.*\n', '', cargo)
         _write(os.path.join(lib, 'Cargo.toml'), cargo)
         p = os.path.join(lib, 'src', 'export.rs')
-        _write(p, _read(p) + _read(os.path.join(NATIVE, 'tsrs_replay.rs')))
+        _write(p, _read(p) + _adapt_replay(_read(os.path.join(NATIVE, 'tsrs_replay.rs')), repo))
         p = os.path.join(lib, 'src', 'lib.rs')
         _write(p, _read(p) + '\n#[doc(hidden)]\npub use crate::export::verif_replay;\n')
         _write(os.path.join(helper, 'Cargo.toml'), f'''[package]
